@@ -406,3 +406,18 @@ Proof.
          (HTerm 0 9 RCancel).
   vm_compute. repeat split; try reflexivity. left. reflexivity.
 Qed.
+
+(* why the lock scope matters (seeded change C41-a): with the lifecycle check and the
+   admission in two separate critical sections a stop can complete between them —
+   the drain is done, yet a task is admitted afterwards, is in flight and has no
+   terminal result; the same event list on the real model rejects nothing wrongly
+   and keeps the monitor at 0 *)
+Lemma split_check_refuted :
+  let c := SCfg 1 false in
+  let evs := [SSubmit 0; STask 0 ROk; SStopCall 0; SStop 0 false; SStop 0 false; SDrainer; SStop 0 false; STask 0 ROk] in
+  let st := srun_split c evs in
+  s_done st = true /\ s_inflight st = 1 /\ s_tpc st 0%nat = TWork
+  /\ map hb_acc (s_subs st) = [true] /\ s_terms st = [] /\ map hp_ok (s_stops st) = [true]
+  /\ smonitor 1 false (shist_of st) = 1
+  /\ smonitor 1 false (shist_of (srun c evs)) = 0.
+Proof. vm_compute. repeat split; reflexivity. Qed.
